@@ -73,6 +73,7 @@ impl RefState {
 
 /// run one history on a fresh engine, checking every step; returns (steps, repetition flags seen, divergences)
 pub fn run_history(ops: &[Op]) -> (u64, u64, Vec<Divergence>) {
+    set_case(|| json!({"property": "C15", "case": {"kind": "plugin-history", "ops": ops.iter().map(op_json).collect::<Vec<_>>()}}).to_string());
     let r = std::panic::catch_unwind(|| {
         let mut d = vec![];
         let mut eng = new_engine();
@@ -245,7 +246,7 @@ pub fn c15_histories(tier: Tier) -> Vec<Vec<Op>> {
 
 pub fn run_c15(args: &crate::Args) -> i32 {
     let report = Report::new("C15", args.tier, args.seed, "model_checking");
-    std::panic::set_hook(Box::new(|_| {}));
+    silence_panics();
     let _ = api();
     let hs = c15_histories(args.tier);
     let res: Vec<(u64, u64, Vec<Divergence>)> = hs.par_iter().map(|h| run_history(h)).collect();
@@ -260,7 +261,7 @@ pub fn run_c15(args: &crate::Args) -> i32 {
         }
         report.record(d, || json!({"kind": "plugin-history", "ops": h.iter().map(op_json).collect::<Vec<_>>()}));
     }
-    let _ = std::panic::take_hook();
+    restore_panics();
     if with_flag == 0 {
         machinery_failure("C15: no history reaches a third occurrence: vacuous");
     }
@@ -283,7 +284,7 @@ pub fn run_c15(args: &crate::Args) -> i32 {
 }
 
 pub fn replay_c15(case: &Value) -> Vec<Divergence> {
-    std::panic::set_hook(Box::new(|_| {}));
+    silence_panics();
     let ops: Vec<Op> = case["ops"].as_array().unwrap().iter().map(op_from).collect();
     run_history(&ops).2
 }
@@ -291,6 +292,7 @@ pub fn replay_c15(case: &Value) -> Vec<Divergence> {
 // ------------------------------------------------------------------ C11 through the plugin
 
 fn plugin_search_case(p: &Position, k: u64) -> Vec<Divergence> {
+    set_case(|| json!({"property": "C11", "case": {"kind": "plugin-search", "fen": p.to_fen(), "k": k}}).to_string());
     let fen = p.to_fen();
     let Ok(b) = parse_board(&fen) else { return vec![] };
     let legal = p.legal_moves();
